@@ -276,7 +276,7 @@ def gen_S(seed, klass="S"):
             k += 1
             extra.append(addtype(-43200 + 337 * k, k & 1, r.choice(["LMT", std[1]])))
         extra = list(dict.fromkeys(extra))
-    if klass == "S":
+    if klass in ("S", "S-dst0"):
         Y0 = r.choice([r.randrange(1850, 2200), r.randrange(1800, 3000), 2037, 2007, r.randrange(1970, 2040)])
     elif klass == "S-early":
         Y0 = r.randrange(1572, 1799)
@@ -336,6 +336,19 @@ def gen_S(seed, klass="S"):
             trans = [x for x in trans if x[0] < 2 ** 31 - 1 - 3 * SPD] + [(2 ** 31 - 1, trans[-1][1])]
             if r.random() < 0.3 and trans[0][0] > -2 ** 31 + 3 * SPD:
                 trans = [(-2 ** 31, lmt)] + trans
+    dst0 = False
+    if klass == "S-dst0":
+        # an old-style file: type 0 is a daylight type that the transitions refer to (and, in most, that a 'big bang'
+        # entry at -2^59 refers to), so "the type before the first transition" is not simply type 0
+        cands = sorted({ty for _, ty in trans if types[ty][1] and ty != 0})
+        if cands:
+            d = r.choice(cands)
+            types[0], types[d] = types[d], types[0]
+            sw = {0: d, d: 0}
+            trans = [(t, sw.get(ty, ty)) for t, ty in trans]
+            if version != b"\0" and trans[0][0] > -2 ** 59 + 3 * SPD and r.random() < 0.7:
+                trans = [(-2 ** 59, 0)] + trans
+            dst0 = True
     isstd = isut = None
     if r.random() < 0.3:
         isstd = [r.randrange(0, 2) for _ in types]
@@ -343,7 +356,7 @@ def gen_S(seed, klass="S"):
     data = tzif_bytes(trans, types, abbrs, footer, version=version, v1=r.choice(["slim", "fat"]), isstd=isstd, isut=isut)
     return data, dict(form=form, footer=footer, last_year=Y0, ntrans=len(trans), version=version.decode("latin1"),
                       ntypes=len(types), nchars=len(abbrs), abbr_route=abbr_route,
-                      omitted=None if omit is None else ("dst" if omit == di else "std"))
+                      omitted=None if omit is None else ("dst" if omit == di else "std"), dst0=dst0)
 
 
 # ---------------------------------------------------------------------- zic (Z)
@@ -462,7 +475,7 @@ def build_Z(outdir, seeds):
     return out
 
 
-def domain_ok(path):
+def domain_ok(path, allow_dst0=False):
     """Well-formedness filter shared by Z (zic output) and S: footer parses in the model, rule
     transitions alternate >= 20 days apart, consecutive recorded *real* changes >= 3 days apart,
     type 0 is standard time or unused."""
@@ -499,7 +512,7 @@ def domain_ok(path):
             nxt = min(t for yy in (y - 1, y, y + 1, y + 2) for t in (p.start_of(yy), p.end_of(yy)) if t > last)
             if nxt - last < seam_min:
                 return False
-    if z.types[0][1] and 0 in z.idx:
+    if z.types[0][1] and 0 in z.idx and not allow_dst0:
         return False
     prev_t = None
     for t in z.times:
@@ -548,7 +561,7 @@ def r_zones():
     return out
 
 
-def build_corpus(outdir, seed, n_s=120, n_early=12, n_ancient=8, n_z=40, r_sample=None, want_fixed=True):
+def build_corpus(outdir, seed, n_s=120, n_early=12, n_ancient=8, n_z=40, r_sample=None, want_fixed=True, n_dst0=0):
     """Writes files + list.txt under outdir; returns list of (cls, name, path, flags)."""
     os.makedirs(outdir, exist_ok=True)
     rnd = random.Random("corpus/%d" % seed)
@@ -567,7 +580,7 @@ def build_corpus(outdir, seed, n_s=120, n_early=12, n_ancient=8, n_z=40, r_sampl
     for cls, name, p in rz:
         ents.append((cls, name, p, "abs"))
     base = seed * 100000
-    for klass, n in (("S", n_s), ("S-early", n_early), ("S-ancient", n_ancient)):
+    for klass, n in (("S", n_s), ("S-early", n_early), ("S-ancient", n_ancient), ("S-dst0", n_dst0)):
         d = os.path.join(outdir, klass)
         os.makedirs(d, exist_ok=True)
         i = 0
@@ -579,7 +592,7 @@ def build_corpus(outdir, seed, n_s=120, n_early=12, n_ancient=8, n_z=40, r_sampl
             p = os.path.join(d, "s%07d" % s)
             with open(p, "wb") as f:
                 f.write(data)
-            if not domain_ok(p):
+            if not domain_ok(p, allow_dst0=klass == "S-dst0") or (klass == "S-dst0" and not meta["dst0"]):
                 os.unlink(p)
                 continue
             ents.append((klass, "s%07d-%s" % (s, meta["form"]), p, ""))
